@@ -479,17 +479,17 @@ func writeEvidence(w World, tier string, base uint64, st *Stats, t0 time.Time, n
 			"operations_executed": st.SimOps,
 			"yield_points_passed": st.Yields,
 		},
-		"faults_injected":       st.Faults,
-		"probes":                st.Probes,
-		"aborted_runs":          st.Aborted,
-		"distinct_schedules":    len(st.Schedules),
-		"context_switches":      st.Switches,
-		"switches_by_site":      st.SwitchBySite,
-		"distinct_states":       len(st.States),
-		"components":            w.Components(),
-		"instrumented_build":    Instrumented,
-		"known_findings":        known,
-		"notes":                 st.Notes,
+		"faults_injected":    st.Faults,
+		"probes":             st.Probes,
+		"aborted_runs":       st.Aborted,
+		"distinct_schedules": len(st.Schedules),
+		"context_switches":   st.Switches,
+		"switches_by_site":   st.SwitchBySite,
+		"distinct_states":    len(st.States),
+		"components":         w.Components(),
+		"instrumented_build": Instrumented,
+		"known_findings":     known,
+		"notes":              st.Notes,
 	}
 	if len(st.Samples) == 0 {
 		cov["samples"] = []interface{}{"no run completed"}
